@@ -9,6 +9,7 @@ package main
 
 import (
 	"bytes"
+	"context"
 	"encoding/hex"
 	"fmt"
 	"io"
@@ -37,6 +38,9 @@ type opq struct {
 	Generic bool        `json:"generic"`
 	Hdrs    [][2]string `json:"hdrs"`
 	FromU   *int        `json:"from_u"`
+	Hadd    [][2]string `json:"hadd"`
+	Size    int         `json:"size"`
+	Limit   int         `json:"limit"`
 }
 
 type req struct {
@@ -51,6 +55,7 @@ type ctxDump struct {
 }
 
 type dump struct {
+	Reply string          `json:"reply,omitempty"`
 	Ctxs  []ctxDump       `json:"ctxs"`
 	Umaps [][][2]string   `json:"umaps"`
 	Err   string          `json:"err,omitempty"`
@@ -223,6 +228,21 @@ func run(q req) resp {
 			if string(wmem.Bytes()) != "payload" {
 				d.Err = "payload after the response header was disturbed"
 			}
+		case 12:
+			// a whole call through a real FBaseProcessor whose output buffer is bounded: the handler adds
+			// response headers and returns a payload of o.Size bytes; the reply (or the RESPONSE_TOO_LARGE
+			// error reply) is read back into the caller's context
+			reply, sctx, sp, err := processorCall(ctxs[o.I], o.Hadd, o.Size, o.Limit)
+			if sp != nil {
+				protos = append(protos, *sp)
+			}
+			if sctx != nil {
+				ctxs = append(ctxs, sctx)
+			}
+			if err != nil {
+				d.Err = err.Error()
+			}
+			d.Reply = reply
 		case 9:
 			mem := thrift.NewTMemoryBuffer()
 			mem.Write(wire(o.Hdrs))
@@ -248,6 +268,91 @@ func run(q req) resp {
 	}
 	_ = strconv.Itoa
 	return r
+}
+
+// ---- one call through FBaseProcessor with a bounded output buffer ----
+
+type echoResult struct{ payload []byte }
+
+func (r echoResult) Write(ctx context.Context, p thrift.TProtocol) error {
+	p.WriteStructBegin(ctx, "echo_result")
+	p.WriteFieldBegin(ctx, "success", thrift.STRING, 0)
+	if err := p.WriteBinary(ctx, r.payload); err != nil {
+		return err
+	}
+	p.WriteFieldEnd(ctx)
+	if err := p.WriteFieldStop(ctx); err != nil {
+		return err
+	}
+	return p.WriteStructEnd(ctx)
+}
+func (echoResult) Read(ctx context.Context, p thrift.TProtocol) error { return p.Skip(ctx, thrift.STRUCT) }
+func (echoResult) String() string                                     { return "echo_result" }
+
+type echoFn struct {
+	*frugal.FBaseProcessorFunction
+	hadd [][2]string
+	size int
+	seen frugal.FContext
+}
+
+func (e *echoFn) Process(fctx frugal.FContext, in, out *frugal.FProtocol) error {
+	c := context.Background()
+	in.Skip(c, thrift.STRUCT)
+	in.ReadMessageEnd(c)
+	e.seen = fctx
+	for _, kv := range e.hadd {
+		fctx.AddResponseHeader(unhex(kv[0]), unhex(kv[1]))
+	}
+	return e.SendReply(fctx, out, "echo", echoResult{payload: make([]byte, e.size)})
+}
+
+func processorCall(caller frugal.FContext, hadd [][2]string, size, limit int) (string, frugal.FContext, *proto, error) {
+	c := context.Background()
+	// request frame
+	reqMem := thrift.NewTMemoryBuffer()
+	rp := pf.GetProtocol(reqMem)
+	if err := rp.WriteRequestHeader(caller); err != nil {
+		return "", nil, nil, err
+	}
+	rp.WriteMessageBegin(c, "echo", thrift.CALL, 0)
+	rp.WriteStructBegin(c, "echo_args")
+	rp.WriteFieldStop(c)
+	rp.WriteStructEnd(c)
+	rp.WriteMessageEnd(c)
+	// server
+	bp := frugal.NewFBaseProcessor()
+	fn := &echoFn{FBaseProcessorFunction: frugal.NewFBaseProcessorFunction(bp.GetWriteMutex(), nil), hadd: hadd, size: size}
+	bp.AddToProcessorMap("echo", fn)
+	inMem := &thrift.TMemoryBuffer{Buffer: bytes.NewBuffer(reqMem.Bytes())}
+	iprot := pf.GetProtocol(inMem)
+	output := frugal.NewTMemoryOutputBuffer(uint(limit))
+	oprot := pf.GetProtocol(output)
+	sp := &proto{p: iprot, mem: inMem}
+	if err := bp.Process(iprot, oprot); err != nil {
+		return "process-error", fn.seen, sp, err
+	}
+	if !output.HasWriteData() {
+		return "no-reply", fn.seen, sp, nil
+	}
+	// client
+	replyMem := &thrift.TMemoryBuffer{Buffer: bytes.NewBuffer(output.Bytes()[4:])}
+	cp := pf.GetProtocol(replyMem)
+	if err := cp.ReadResponseHeader(caller); err != nil {
+		return "bad-reply-header", fn.seen, sp, err
+	}
+	_, mtype, _, err := cp.ReadMessageBegin(c)
+	if err != nil {
+		return "bad-reply", fn.seen, sp, err
+	}
+	if mtype == thrift.EXCEPTION {
+		ex := thrift.NewTApplicationException(0, "")
+		if err := ex.Read(c, cp); err != nil {
+			return "bad-exception", fn.seen, sp, err
+		}
+		return fmt.Sprintf("exception:%d", ex.TypeId()), fn.seen, sp, nil
+	}
+	return "ok", fn.seen, sp, nil
 }
 
 func handle(q req) resp {
